@@ -31,6 +31,14 @@ CHECKS.append({
     "technique": "Coq proof (mutual induction over directive trees; induction over line lists) + regenerated tables + model/implementation correspondence",
 })
 
+CHECKS.append({
+    "property_id": "C16",
+    "text": "Coq theorems over an executable model of ImplicitConversion::find/get_rank and find_function_type: for every candidate list (any length, any arity, with default parameters) and every argument tuple the verdict is invariant under permutation of the declarations; a viable candidate needing no conversion is selected when every other viable candidate needs one (and a parameter of exactly the argument's type needs none); the selected candidate is never dominated (lexicographic numeric/vector rank per argument) by a viable candidate. The rank order, rank matrix and vector-rank order are regenerated from casting.rs each run; verdicts are compared with the type checker on exhaustive two-overload scalar sets, random sets of 2-5 overloads with 1-3 parameters and a random permutation of each.",
+    "design_ref": "DESIGN.md §4 C16",
+    "note": "Trusted: Coq kernel, the definition of dominance, translator, extraction + drivers; hand-written model tied by correspondence. Templates, matrices, enums and object/struct parameters are not modelled.",
+    "technique": "Coq proof (permutation invariance, minimality of the histogram, tournament argument) + regenerated tables + model/implementation correspondence",
+})
+
 _claimed = {c["property_id"] for c in CHECKS}
 NOT_APPLICABLE = [
     {"property_id": p, "reason": "not yet claimed: model/theorems under construction (see DESIGN.md build order); no check registered until it passes on the unchanged tree"}
